@@ -9425,6 +9425,24 @@ let rec tf_rep reps b =
 let api_search_tf k reps passes fuel root =
   search k (tf_rep reps root) passes fuel root
 
+(** val tf_add_n : nat -> threefold -> board -> threefold **)
+
+let rec tf_add_n reps tf b =
+  match reps with
+  | O -> tf
+  | S n0 -> fst (tf_add (tf_add_n n0 tf b) b)
+
+(** val tf_children : nat -> board -> threefold **)
+
+let tf_children reps root =
+  fold_left (fun tf m -> tf_add_n reps tf (apply root m)) (legals root) []
+
+(** val api_search_tfc :
+    n -> nat -> nat -> nat -> board -> ((move option * score) * n) * bool **)
+
+let api_search_tfc k reps passes fuel root =
+  search k (tf_children reps root) passes fuel root
+
 (** val api_nat_of_N : n -> nat **)
 
 let api_nat_of_N =
